@@ -53,6 +53,65 @@ def run_with_fsize_limit(limit, op, inspect):
     return d['res'], None
 
 
+def run_without_free_descriptors(op, inspect, slack=40):
+    """Fork; in the child lower the soft RLIMIT_NOFILE to (highest descriptor in use + slack), run op(exhaust) where exhaust()
+    - to be called by the data source at the moment it fails - opens /dev/null until the kernel refuses (EMFILE) and re-raises that
+    OSError while keeping all of them open; afterwards the hoard is released, the limit restored and inspect(raised) runs."""
+    r, w = os.pipe()
+    pid = os.fork()
+    if pid == 0:
+        code = 0
+        try:
+            os.close(r)
+            soft, hard = resource.getrlimit(resource.RLIMIT_NOFILE)
+            top = max(int(x) for x in os.listdir('/proc/self/fd') if x.isdigit())
+            resource.setrlimit(resource.RLIMIT_NOFILE, (min(top + 1 + slack, soft), hard))
+            hoard = []
+
+            def exhaust():
+                while True:
+                    hoard.append(os.open('/dev/null', os.O_RDONLY))     # ends in OSError(EMFILE), which propagates to the caller
+            raised = None
+            try:
+                op(exhaust)
+            except BaseException as e:   # noqa
+                raised = f'{type(e).__name__}: {str(e)[:200]}'
+            finally:
+                for h in hoard:
+                    os.close(h)
+                resource.setrlimit(resource.RLIMIT_NOFILE, (soft, hard))
+            res = inspect(raised)
+            data = json.dumps({'ok': True, 'res': res, 'hoard': len(hoard)}).encode()
+        except BaseException:
+            data = json.dumps({'ok': False, 'tb': traceback.format_exc()[-2000:]}).encode()
+            code = 3
+        try:
+            os.write(w, data)
+            os.close(w)
+        finally:
+            os._exit(code)
+    os.close(w)
+    chunks = []
+    while True:
+        b = os.read(r, 65536)
+        if not b:
+            break
+        chunks.append(b)
+    os.close(r)
+    _, status = os.waitpid(pid, 0)
+    if os.WIFSIGNALED(status):
+        return None, f'child killed by signal {os.WTERMSIG(status)}'
+    try:
+        d = json.loads(b''.join(chunks).decode())
+    except Exception:
+        return None, f'child exited with status {os.WEXITSTATUS(status)} without a result'
+    if not d.get('ok'):
+        return None, 'harness exception in child:\n' + d.get('tb', '')
+    if not d.get('hoard'):
+        return None, 'the data source never exhausted the descriptors'
+    return d['res'], None
+
+
 class FailingIter:
     """Iterable that yields the given chunks and then fails in a chosen way."""
 
